@@ -105,6 +105,8 @@ def run(ctx: Ctx) -> None:
     q = ctx.quick
     ctx.design("Fitness", "Fitness_merge.cfg" if q else "Fitness_merge_thorough.cfg",
                coverage_actions=["ExecutedPredicate", "FinishTest"])
+    if not q:
+        ctx.design("Fitness", "Fitness_merge_lines.cfg", coverage_actions=["TrackLineVisit", "CheckedLine", "FinishTest"])
     groups = ctx.behaviours("MC_Fitness", "MC_Fitness_fam.cfg" if q else "MC_Fitness_fam_thorough.cfg")
     if not q:
         have = {json.dumps(g["reg"], sort_keys=True) for g in groups}
